@@ -93,8 +93,10 @@ CLAIMS = {
             "- no requested length => natural cumulative lengths; requested L: within epsilon => natural (deviation D9 when "
             "different), last two points equal and L longer => natural plus one repeated entry, single vertex => [0], "
             "otherwise the last cumulative length IS L (the very same value), sizes agree, first length 0, the path is a "
-            "prefix of the natural path plus the adjusted end point, cut index characterised. NOT proved: exact-arithmetic "
-            "geometry of the cut/extension (T16b), Catmull surplus identity (T16c), monotonicity under rounding (T16d) - "
+            "prefix of the natural path plus the adjusted end point, cut index characterised; over the reals the osu!-mode "
+            "Catmull simplification keeps kept-length + surplus = full polyline length with a non-negative surplus (T16c, "
+            "on the same loop as the model). NOT proved: exact-arithmetic geometry of the cut/extension (T16b), "
+            "monotonicity under rounding (T16d) - "
             "these are measured by the oracle (dist == L bitwise with the stated exceptions, cut geometry in f64, lengths "
             "start at 0 / monotone within 1e-5 / finite). Tie to the code: bit-exact correspondence of Curve::new "
             "(path and lengths) incl. arcs through real libm on grids and random control-point lists, all modes and length classes.",
@@ -103,8 +105,11 @@ CLAIMS = {
             "vertices, a Bezier segment starts at its first and ends at its last control point (both buffer levels), perfect "
             "curves that are not three points / collinear / need >= 1000 sub-points fall back to Bezier, arc and Catmull "
             "vertex counts, the joint-vertex skip characterised exactly; over the reals the Catmull formulas are the "
-            "Catmull-Rom polynomial interpolating v2 and v3; tolerances pinned. NOT proved: de Casteljau subdivision (T17b), "
-            "arc equidistance (T17d), and the Hausdorff bound itself (T17e) - the oracle measures the two-sided distance to "
+            "Catmull-Rom polynomial interpolating v2 and v3; de Casteljau: the left/right control polygons evaluate to the "
+            "parent curve at t/2 and (1+t)/2 (T17b, reals, on the model's subdivision); the arc centre is equidistant from "
+            "the three points, every emitted point lies on the circle and the end points are the first and last vertices "
+            "under the stated libm hypotheses (T17d); tolerances pinned. NOT proved: the Hausdorff bound itself (T17e) - "
+            "the oracle measures the two-sided distance to "
             "exactly evaluated curves under a bound derived from the tolerances. Recorded deviation D19 (ill-conditioned "
             "three-point arcs). Tie to the code: bit-exact correspondence of computed paths.",
             "§6 C17"),
@@ -112,14 +117,18 @@ CLAIMS = {
             "subdivision, mem::take) equals the pure curve for any prior buffer contents; owned and borrowed constructors "
             "agree; for every history over the SliderPath accessors and foreign computations on the same buffers each read "
             "equals the cache-free, buffer-free specification and the cache invariant holds; every mutable accessor "
-            "invalidates. (D7, the empty-list case, was found by this check and repaired: fix 738fe2f.) Tie to the code: "
+            "invalidates - all for EVERY control-point list including the empty one and with no side condition (D7, the "
+            "empty-list case, was found by this check and repaired: fix 738fe2f). Tie to the code: "
             "bit-exact correspondence on histories over pools of control-point lists sharing one buffer set.",
             "§6 C18"),
     "C19": ("PARTIAL. Proved (coq/Properties/C19.v, IEEE): progress is clamped below 0 and above 1 (NaN kept), progress_to_dist "
             "= progress x dist inside [0,1], all end cases of interpolate_vertices, the transcribed std search stays in "
             "bounds for any comparator, no panic on any computed curve, every position is the origin, a vertex or on the "
-            "selected segment, progress 0 is exactly the first vertex under finiteness/positivity. NOT proved: progress 1 "
-            "-> last vertex, the Lipschitz bound, vertex hits (T19b/c) - measured by the oracle within rounding slack. Tie "
+            "selected segment, progress 0 is exactly the first vertex under finiteness/positivity; at a vertex's own "
+            "cumulative length and at progress 1 (last length strictly largest) the interpolation weight is exactly 1, so "
+            "the position is that vertex up to one rounding; in exact arithmetic vertex hits and the per-segment Lipschitz "
+            "bound / isometry. NOT proved: the Lipschitz bound across segments in IEEE arithmetic, vertex hits reached "
+            "through lengths[i]/dist, progress 1 with a repeated last length - measured by the oracle within rounding slack. Tie "
             "to the code: bit-exact position_at / progress_to_dist / idx_of_dist / interpolate_vertices.",
             "§6 C19"),
     "C20": ("Unbounded theorems (coq/Properties/C20.v): the lazy iterator state machine with its reversed tick stack equals "
